@@ -411,6 +411,17 @@ func (s *MemoryStore) RevokeAccessToken(ctx context.Context, requestID string) e
 			return err
 		}
 	}
+
+	// AccessTokenRequestIDs remembers only the newest signature of a request ID, but one authorization can have
+	// more than one live access token (hybrid flow: one issued at the authorization endpoint, one when the code
+	// is redeemed). Revocation by request ID has to remove all of them.
+	s.accessTokensMutex.Lock()
+	defer s.accessTokensMutex.Unlock()
+	for signature, req := range s.AccessTokens {
+		if req.GetID() == requestID {
+			delete(s.AccessTokens, signature)
+		}
+	}
 	return nil
 }
 
